@@ -77,7 +77,7 @@ def stepLine (s : WSys) (op : String) (a : List (String × String)) : WSys × St
     match parseOp op a with
     | none => (s, "bad-op")
     | some o =>
-      let (s', out) := s.storeOp (argNat a "t") o
+      let (s', out) := s.storeOpBS (arg a "bsfail" == "1") (argNat a "t") o
       (s'.settle, outStr out (arg a "ns") (arg a "typ"))
 
 end Cosi.Driver.Watch
